@@ -1,6 +1,8 @@
 """C12 - time normalisation, overridden-clock comparison and marshalling are exact."""
+import contextlib
 import datetime
 import math
+import os
 import re
 import time
 import zoneinfo
@@ -30,7 +32,10 @@ RULE = ('(override instant, datetime, representation, seconds) tuples: instants 
         'repeated interval (either fold), inside the gap (readings that do not exist, either fold) and next to them, '
         'with the override within two hours of the transition (inside the overlap / skipped hour included) and the '
         'compared instant at the datetime\'s own instant, the transition, the other pass of the same reading, +-1 us, '
-        'for all three comparisons. Marshalling: the same marshalled dict is unmarshalled 1-3 times, must be left as it '
+        'for all three comparisons. Process environment: about a third of all cases, and dedicated override/utcnow_ts '
+        'sequences (local summer/winter, the wall readings where the process zone changes offset, 1970, range edges, '
+        'advances of months), are run with os.environ["TZ"] set to one of 11 zones (IANA and POSIX rule strings) - the '
+        'expected values never depend on it. Marshalling: the same marshalled dict is unmarshalled 1-3 times, must be left as it '
         'was (snapshot before/after, also when unmarshall_time raises) and is re-marshalled. A case is non-trivial when an override-dependent call '
         'returned a value (datetime, timestamp, bool) or normalize/marshall/unmarshall returned one, on both sides; '
         'distinct by the canonical JSON of the case')
@@ -58,6 +63,7 @@ ASSUMPTIONS = [
     'seconds is read at timedelta resolution: nearest microsecond, ties to even (recorded interpretation; the exact '
     'rational comparison is proved where the sub-microsecond part does not round up: *_exact_partial)',
     'a datetime whose UTC instant is outside 0001..9999 is outside the property; OverflowError is accepted there',
+    'the answers do not depend on the time zone of the process (TZ / time.tzset()); the model has no such input',
     'ISO strings are demanded of is_older_than / is_newer_than, not of is_soon (recorded interpretation)',
     'ZoneInfo("UTC") exists and has offset 0 (checked on every UTC marshalling case)',
 ]
@@ -71,10 +77,11 @@ MAX_US = 3652059 * DAY_US - 1
 EPOCH_US = 719162 * DAY_US
 TD_MIN_US = -999999999 * DAY_US
 TD_MAX_US = 1000000000 * DAY_US - 1
+ALL_ZONE_KEYS = zoneinfo.available_timezones()
 ZONES = [z for z in ['Europe/Paris', 'America/New_York', 'Asia/Kolkata', 'Australia/Lord_Howe',
                      'Pacific/Kiritimati', 'Etc/GMT+12', 'Asia/Kathmandu', 'America/St_Johns', 'Pacific/Apia',
                      'UTC', 'Africa/Monrovia', 'Europe/Berlin', 'Europe/London']
-         if z in zoneinfo.available_timezones()]
+         if z in ALL_ZONE_KEYS]
 ZONE_KEYS = ['UTC', 'UTC+00:00', 'Europe/Paris', 'UTC+01:00', 'Nope/Zone', 'utc', '../x', 'Etc/GMT+12', '']
 
 
@@ -633,9 +640,69 @@ def gen_unmarshall(ctx):
     return {'kind': 'unmarshall', 'fields': f, 'tzname': tz, 'times': rng.choice([2, 2, 3])}
 
 
-def gen_case(ctx):
+def local_transition_walls(ptz):
+    """wall-clock readings at which the process zone changes offset (IANA keys only; [] otherwise)"""
+    if ptz in ALL_ZONE_KEYS:
+        return [w for T, ob, oa in zone_transitions(ptz) for w in (T + ob, T + oa)]
+    return []
+
+
+def gen_ptz_seq(ctx):
+    """Clock reads under a process time zone: override instants in (local) summer and winter, at the wall-clock
+    readings where that zone changes offset, around 1970 and at the range edges; timestamps before and after
+    advances of days/months (across a DST change); comparisons at the boundary."""
     rng = ctx.rng
-    k = rng.randrange(100)
+    ptz = rng.choice(PROCESS_TZS)
+    walls = local_transition_walls(ptz)
+    k = rng.randrange(10)
+    if k < 4:
+        y = rng.randrange(1971, 2038)
+        c = us_of(DT(y, rng.choice([1, 2, 6, 7, 8, 12]), rng.randrange(1, 29), rng.randrange(24), rng.randrange(60),
+                     rng.randrange(60), rng.choice([0, 1, 999999, rng.randrange(10 ** 6)])))
+    elif k < 7 and walls:
+        c = rng.choice(walls) + rng.choice([0, -1, 1, -10 ** 6, rng.randrange(-2 * 3600 * 10 ** 6, 2 * 3600 * 10 ** 6)])
+    else:
+        c = gen_instant(rng)
+    init, ops = c, []
+    for _ in range(rng.randrange(2, 8)):
+        j = rng.randrange(10)
+        if j < 4:
+            ops.append(['ts', rng.randrange(2)])
+        elif j < 5:
+            ops.append(['now', rng.randrange(2)])
+        elif j < 7:
+            d = rng.choice([1, -1, 86400 * 10 ** 6, 120 * DAY_US, -120 * DAY_US, 183 * DAY_US,
+                            rng.randrange(-400 * DAY_US, 400 * DAY_US)])
+            if in_range(c + d):
+                c += d
+            ops.append(['advd', d])
+        elif j < 8:
+            sec = rng.choice([['int', 86400 * 120], ['int', -86400 * 200], ['float', (3600.5).hex()], gen_secs(ctx)])
+            w = sec_us(sec)
+            if TD_MIN_US <= w <= TD_MAX_US and in_range(c + w):
+                c += w
+            ops.append(['advs', sec])
+        else:
+            ops.append(gen_cmp(ctx, c))
+    if not any(op[0] == 'ts' for op in ops):
+        ops.append(['ts', rng.randrange(2)])
+    ctx.count('ptz/' + ptz.split(',')[0])
+    return {'kind': 'seq', 'init': init, 'ops': ops, 'fixture': rng.random() < 0.15, 'ptz': ptz}
+
+
+def gen_case(ctx):
+    """a case; about a third of all cases are run under a process time zone other than the harness's own"""
+    c = gen_case_plain(ctx)
+    if 'ptz' not in c and c['kind'] != 'secs' and ctx.rng.random() < 0.3:
+        c['ptz'] = ctx.rng.choice(PROCESS_TZS)
+    return c
+
+
+def gen_case_plain(ctx):
+    rng = ctx.rng
+    k = rng.randrange(108)
+    if k >= 100:
+        return gen_ptz_seq(ctx)
     if k < 7:
         return gen_foldseq(ctx)
     if k < 16:
@@ -714,6 +781,17 @@ def corpus():
                     ops += [['soon', spec, sec_for(X - now), 0], ['newer', spec, sec_for(X - now), 0],
                             ['older', spec, sec_for(now - X), 0]]
                 out.append({'kind': 'seq', 'init': T + shift // 3, 'fixture': False, 'ops': ops})
+    for ptz in PROCESS_TZS:
+        for y, mo in ((2020, 7), (2020, 1), (1969, 12), (1, 1), (9999, 12)):
+            c = us_of(DT(y, mo, 1, 12, 0, 0, 250000))
+            ops = [['ts', 0], ['ts', 1], ['now', 0], ['older', {'us': c - 10 ** 6, 'tz': None}, ['int', 1], 0],
+                   ['soon', {'us': c + 10 ** 6, 'tz': ['utc']}, ['int', 1], 0]]
+            if in_range(c + 120 * DAY_US):
+                ops += [['advd', 120 * DAY_US], ['ts', 0], ['advs', ['int', -86400 * 240]], ['ts', 1], ['now', 1]]
+            out.append({'kind': 'seq', 'init': c, 'fixture': False, 'ops': ops, 'ptz': ptz})
+        for w in local_transition_walls(ptz)[-4:]:
+            out.append({'kind': 'seq', 'init': w - 1, 'fixture': False, 'ptz': ptz,
+                        'ops': [['ts', 1], ['advd', 1], ['ts', 0], ['advs', ['int', 1800]], ['ts', 0], ['ts', 1]]})
     out.append({'kind': 'norm', 'dt': {'us': MAX_US, 'tz': ['fixed', -3600 * 10 ** 6]}})
     out.append({'kind': 'norm', 'dt': {'us': 0, 'tz': ['fixed', 3600 * 10 ** 6]}})
     for tz in (None, ['utc'], ['named', 0, 'UTC+00:00'], ['zone', 'UTC', 0], ['fixed', 0]):
@@ -879,8 +957,41 @@ def op_str(op):
     return '%s %s %s' % (k, model_dt(op[1], bool(op[3])), sec_str(op[2]))
 
 
+# The process environment: the model is environment-free (the override cell holds a naive UTC instant, every
+# datetime carries its own offset), so every answer must be the same whatever time zone the *process* runs in.
+# A case may carry 'ptz': the value of TZ under which the implementation is called (time.tzset(), restored after).
+PROCESS_TZS = ['UTC', 'Europe/Berlin', 'America/New_York', 'Australia/Lord_Howe', 'Asia/Kolkata', 'Pacific/Apia',
+               'America/St_Johns', 'Asia/Kathmandu',
+               'XST-3:17XDT-5:02,M2.3.4/01:30,M9.1.2/23:15',      # POSIX rule: odd offsets, 1h45 DST Feb..Sep
+               'AAA+11:30BBB+9,J60/0,J300/26',                     # west of UTC, 2h30 DST, Julian-day rule
+               'EST5EDT,M3.2.0,M11.1.0']
+
+
+@contextlib.contextmanager
+def process_tz(tz):
+    if not tz:
+        yield
+        return
+    old = os.environ.get('TZ')
+    os.environ['TZ'] = tz
+    time.tzset()
+    try:
+        yield
+    finally:
+        if old is None:
+            os.environ.pop('TZ', None)
+        else:
+            os.environ['TZ'] = old
+        time.tzset()
+
+
 def run_impl(case):
-    """canonical outcome of the case on the implementation: a list of strings"""
+    """canonical outcome of the case on the implementation (called under the case's process time zone)"""
+    with process_tz(case.get('ptz')):
+        return run_impl_here(case)
+
+
+def run_impl_here(case):
     from oslo_utils import timeutils
     _remember(case)
     kind = case['kind']
@@ -1166,7 +1277,10 @@ def oracle_seq(case):
         else:
             want = expected_cmp(k, clock, op[1], op[2])
         if want is not None and not same_out(got, want):
-            return 'call %d (%s): returned %s, the property requires %s (clock at %s)' % (i, op_name(op), got, want, clock)
+            shown = got + ' = %r' % float.fromhex(got[6:]) if got.startswith('float:') else got
+            if want.startswith('us:'):
+                want = '%s (%s s since 1970)' % (want, Fraction(int(want[3:]), 10 ** 6))
+            return 'call %d (%s): returned %s, the property requires %s (clock at %s)' % (i, op_name(op), shown, want, clock)
     want_state = 'N' if clock is None else str(clock)
     if state != want_state:
         return 'override cell after the sequence holds %s, the property requires %s' % (state, want_state)
@@ -1344,10 +1458,13 @@ def oracle_unmarshall(case):
 
 
 def oracle(case):
+    """the property on the implementation; the expected values never depend on the process time zone, the
+    implementation is called under the case's one"""
     k = case['kind']
     _remember(case)
-    return {'seq': oracle_seq, 'norm': oracle_norm, 'iso': oracle_iso, 'secs': oracle_secs,
-            'marshall': oracle_marshall, 'unmarshall': oracle_unmarshall, 'multi': oracle_multi}[k](case)
+    with process_tz(case.get('ptz')):
+        return {'seq': oracle_seq, 'norm': oracle_norm, 'iso': oracle_iso, 'secs': oracle_secs,
+                'marshall': oracle_marshall, 'unmarshall': oracle_unmarshall, 'multi': oracle_multi}[k](case)
 
 
 def oracle_multi(case):
@@ -1459,6 +1576,8 @@ def shrink_seq(case):
             break
     if small.get('fixture') and fails_fresh(dict(small, fixture=False)):
         small['fixture'] = False
+    if small.get('ptz') and fails_fresh(dict(small, ptz=None)):
+        small['ptz'] = None
     return small
 
 
@@ -1560,6 +1679,8 @@ def replay(ctx, payload):
             print('calls         :', '; '.join(op_name(op) for op in c['ops']),
                   '| override initially', None if c['init'] is None else repr(dt_of(c['init'])),
                   '| through TimeFixture' if c.get('fixture') else '')
+        if c.get('ptz'):
+            print('process TZ    :', c['ptz'], '(os.environ["TZ"] + time.tzset() around the calls)')
         if c['kind'] != 'iso':
             print('implementation:', run_impl(c), '(same calls once more, after the oracle\'s run)')
             print('model         :', ctx.driver.ask_many(model_requests(c)))
